@@ -460,7 +460,7 @@ func TestC08(t *testing.T) {
 	rec.SetJournalAll(true)
 	rec.Assume("every statement text belongs to one client class (version, compression): sharing a text between classes is the recorded cross-session finding, demonstrated by the 'shared' sub-check",
 		"hosts that join later are announced by making the control connection re-read the peers table (the 10s refresh window is not configurable through proxy.Config)")
-	runProp(t, rec, "history", perShard(evid.Pick(1200, 40000)), func(rt *rapid.T) c08Case {
+	runProp(t, rec, "history", perShard(evid.Pick(1600, 100000)), func(rt *rapid.T) c08Case {
 		c := c08Gen(rt, false)
 		labels, nt := c08Labels(c)
 		key := ""
